@@ -281,11 +281,11 @@ def run(ctx):
     kf = {"c09_kf_serialdial": "DeadlineInv", "transport_kf": "TransportBack", "c09_kf_inline": "ReplyInTime"}
     fclean = ["filt", "filt_timed"] if quick else ["filt_t", "filt_timed_t"]
     with ThreadPoolExecutor(max_workers=4) as mcex:
-        futs = mux.start_mc(ctx, mcex, clean + list(kf), workers=ctx.pick(2, 4), timeout=ctx.pick(300, 840))
+        futs = mux.start_mc(ctx, mcex, clean + list(kf), workers=ctx.pick(2, 4), timeout=ctx.pick(900, 3000))
         kf["filt_kf_leak"] = "NoResidue"
         for c in fclean + ["filt_kf_leak"]:     # the filter stage (ClientFilt)
             futs[c] = mcex.submit(tlc.run, ctx, mux.SPEC, "MC_ClientFilt", cfg="MC_%s.cfg" % c, workers=ctx.pick(2, 4),
-                                  timeout=ctx.pick(300, 840), name="mc-" + c)
+                                  timeout=ctx.pick(900, 3000), name="mc-" + c)
         exe = gobuild.build(ctx, "muxdrive")
         rc, so, se = sh([exe, "probe"], timeout=60)
         blackhole = "blackhole: ok" in so
